@@ -329,7 +329,7 @@ def coord_cell(draw, cell):
 
 @st.composite
 def multi_defs(draw):
-    D = draw(st.integers(2, 3))
+    D = draw(st.sampled_from([2, 3]))
     cells = [draw(st.sampled_from(CELLS)) for _ in range(D)]
     cs = [draw(coord_cell(c)) for c in cells]
     defn = {k: [c[k] for c in cs] for k in ("x0", "lb", "ub", "plb", "pub")}
@@ -365,10 +365,13 @@ N_MULTI = {"quick": 2000, "thorough": 60000}
 
 
 def plan(tier):
-    return [("matrix", 16), ("multi", 16)]
+    return [("matrix", 16), ("multi", 16)] + ([("fuzz", 16)] if tier == "thorough" else [])
 
 
 def run_part(res, part, tier, seed, shard, nshards):
+    if part == "fuzz":
+        # coverage-guided campaign (atheris/libFuzzer) on the same Hypothesis test, empty corpus, fixed -runs and -seed
+        return engine.run_fuzz_part(res, "C08", "fuzz", 4000, seed, shard)
     if part == "matrix":
         run_matrix(res, tier, seed, shard, nshards)
     else:
@@ -376,17 +379,21 @@ def run_part(res, part, tier, seed, shard, nshards):
 
 
 def minimise(part, tier, sig, case, seed):
-    if part == "multi":
+    if part in ("multi", "fuzz"):
         m = engine.hyp_minimise(multi_defs(), lambda c: any(engine.signature(x) == sig for x in body_multi(c)["violations"]), 3000, seed, budget_s=120)
         return {"case": m or case, "note": "hypothesis shrink" if m else "unminimised"}
     return {"case": case, "note": "matrix cell (one definition)"}
 
 
 def replay(part, case):
-    if part == "multi":
+    if part in ("multi", "fuzz"):
         return body_multi(case)["violations"]
     return check_definition(case, with_spellings=True)[0]
 
 
 def floors(tier):
     return {"multi:nontrivial": 500}
+
+
+def fuzz_entry(entry):
+    return multi_defs(), body_multi
